@@ -174,3 +174,82 @@ def run(F, rep, rule):
     rep.floor(rule + " types with a dependency walk", n_types, 20)
     rep.floor(rule + " code-bearing fields", n_fields, 40)
     rep.extra[rule + " code-bearing fields"] = n_fields
+
+
+def _strip_ty(ty):
+    t = ty.strip()
+    changed = True
+    while changed:
+        changed = False
+        if t.startswith("&"):
+            t = re.sub(r"^&('\w+\s+)?(mut\s+)?", "", t)
+            changed = True
+        if t.startswith("*const ") or t.startswith("*mut "):
+            t = t.split(" ", 1)[1]
+            changed = True
+        m = re.match(r"^alloc::boxed::Box<(.*)>$", t)
+        if m:
+            t = m.group(1)
+            changed = True
+    return mir.strip_generics(t).replace("<'_>", "")
+
+
+def deep(F, rep, rule):
+    """A Dependencies impl either hands a child node to the child's own dependencies() / net_dependencies(), or -- if it reaches into the child and
+    reads its fields itself -- reads *all* of the child's code-bearing fields.  (`rung.body.net_dependencies()` on a nested `else if` without
+    `rung.value` drops the condition's variables from the capture list.)"""
+    c = F.crates["compiler"]
+    dep_types = {}
+    for i in c.impls:
+        if i.get("trait") == DEP:
+            dep_types[mir.strip_generics(i["self"]).replace("<'_>", "")] = i
+    n = 0
+    for tname, imp in sorted(dep_types.items()):
+        methods = [F.fn(p) for p in imp["items"]]
+        bodies = []
+        for m in methods:
+            if m is not None:
+                bodies += [m] + F.closures_of(m)
+        reads = {}
+        for m in bodies:
+            for bi, si, dst, rv, s_ in m.assigns():
+                pl = rv.get("ref") or (op_place(rv["use"]) if "use" in rv else None) or rv.get("discr")
+                if not pl or pl["l"] == 1 and m.kind != "Closure":
+                    continue
+                proj = pl.get("p", [])
+                k = 0
+                while k < len(proj) and proj[k][0] in ("deref", "downcast"):
+                    k += 1
+                if k >= len(proj) or proj[k][0] != "field":
+                    continue
+                owner = _strip_ty(m.locals[pl["l"]])
+                if owner in dep_types and owner in c.adts and c.adts[owner]["kind"] == "Struct":
+                    reads.setdefault(owner, {}).setdefault(proj[k][2], s_.get("sp"))
+        for owner, fields in sorted(reads.items()):
+            adt = c.adts[owner]
+            code_fields = [f["name"] for f in adt["variants"][0]["fields"] if _bears_code_simple(c, dep_types, f["ty"])]
+            missing = [f for f in code_fields if f not in fields and (owner, None, f) not in EXEMPT]
+            n += 1
+            rep.ob(rule, "%s reaches into a child %s by hand and reads all of its code-bearing fields" % (tname.split("::")[-1], owner.split("::")[-1]),
+                   "violated" if missing else "ok",
+                   ("reads %s but not %s: what those fields use is missing from the capture list (delegate to the child's own dependencies())" % (sorted(fields), missing)) if missing
+                   else "reads %s" % sorted(fields), list(fields.values())[0], fn=tname, key="%s|%s|%s" % (rule, tname.split("::")[-1], owner.split("::")[-1]))
+    rep.ob(rule, "dependency walks that read a child's fields themselves read all of them (%d hand-written descents)" % n, "ok", "", None, key=rule + "|summary")
+
+
+def _bears_code_simple(c, dep_types, ty, depth=0):
+    for pth in _PATH_RE.findall(ty):
+        pth = pth.rstrip(":")
+        if pth.startswith(STOP_PREFIX):
+            continue
+        if pth in dep_types:
+            imp = dep_types[pth]
+            if any(x.endswith(("::dependencies", "::supplies", "::net_dependencies")) for x in imp["items"]):
+                return True
+        a = c.adts.get(pth)
+        if a is not None and depth < 5:
+            for v in a["variants"]:
+                for f in v["fields"]:
+                    if _bears_code_simple(c, dep_types, f["ty"], depth + 1):
+                        return True
+    return False
